@@ -24,7 +24,9 @@
 //! itself plus a constant - both sides then carry the same abstract identifier); conditions through
 //! a flag register, negated, conjunctions/disjunctions, the raw x86 `SF != OF` form, comparisons of
 //! 4-byte subpieces; register arithmetic incl. subpiece / zero- and sign-extension / shifts /
-//! multiplication / division by constants; stack spills and reloads at constant offsets across
+//! multiplication / division by constants; pointers that are one of two small absolute constants
+//! depending on a condition (possibly NULL) and are then dereferenced; registers holding one of two
+//! constants (incl. wider than 4 bytes) that are then tested directly or through their low bytes; stack spills and reloads at constant offsets across
 //! branches, partial (1/2/4-byte) and overlapping / misaligned stores and loads, prologue/epilogue
 //! stack-pointer adjustments, early returns.
 #![allow(dead_code)]
@@ -137,6 +139,8 @@ struct Gen<'a> {
     /// current offset of RSP relative to the entry RSP (the prologue may lower it)
     frame: i64,
     tmp_counter: u64,
+    /// a register known to hold constants at this point: preferred as operand of conditions
+    prefer: Option<String>,
 }
 
 impl<'a> Gen<'a> {
@@ -150,6 +154,11 @@ impl<'a> Gen<'a> {
         "RAX".to_string()
     }
     fn src(&mut self) -> String {
+        if let Some(p) = self.prefer.clone() {
+            if self.rng.chance(3, 5) {
+                return p;
+            }
+        }
         // parameter registers are read a little more often
         if self.rng.chance(1, 3) {
             self.rng.pick(&PARAMS[..]).to_string()
@@ -385,7 +394,11 @@ impl<'a> Gen<'a> {
         for _ in 0..n {
             let room = self.blocks + 4 <= self.k.max_blocks;
             let x = self.rng.below(10);
-            if depth < self.k.max_depth && room && x < 3 {
+            if room && self.rng.chance(1, 12) {
+                self.maybe_null_pointer(&mut out);
+            } else if room && depth < self.k.max_depth && self.rng.chance(1, 8) {
+                self.const_merge_test(&mut out, depth);
+            } else if depth < self.k.max_depth && room && x < 3 {
                 out.push(self.if_stmt(depth));
             } else if depth < self.k.max_depth && room && x < 6 {
                 out.push(self.loop_stmt(depth));
@@ -394,6 +407,72 @@ impl<'a> Gen<'a> {
             }
         }
         out
+    }
+    /// `p = cond ? c1 : c2; ... access [p + k]` with small absolute constants: after the join the address
+    /// is a non-singleton set that may start or end inside the NULL window
+    fn maybe_null_pointer(&mut self, out: &mut Vec<Stmt>) {
+        let addr_consts: [i64; 12] = [0, 0, 8, 1000, 1016, 1024, 1024, 1032, 2048, 4096, -1024, -2048];
+        let p = self.dst();
+        let cond = self.cond();
+        self.blocks += 3;
+        let c1 = *self.rng.pick(&addr_consts[..]);
+        let c2 = *self.rng.pick(&addr_consts[..]);
+        out.push(Stmt::If { cond, then: vec![Stmt::Defs(vec![assign(&p, c(c1, 8))])], els: vec![Stmt::Defs(vec![assign(&p, c(c2, 8))])] });
+        let k = *self.rng.pick(&[0i64, 0, 8, 24, -8]);
+        let mut d = Vec::new();
+        let other = self.dst();
+        if self.rng.chance(1, 2) && other != p {
+            d.push(Def::Load { var: reg(&other), address: plus(v(&p), k) });
+        } else {
+            let s = self.src();
+            d.push(Def::Store { address: plus(v(&p), k), value: v(&s) });
+        }
+        out.push(Stmt::Defs(d));
+    }
+    /// `a = cond ? c1 : c2; [a = a op k;] if (test on a) ...`: the tested register holds an ABSOLUTE
+    /// non-singleton value (small, boundary and wider-than-4-byte constants), so the refinement of
+    /// absolute intervals is exercised (most other registers are Top or relative to a parameter)
+    fn const_merge_test(&mut self, out: &mut Vec<Stmt>, depth: usize) {
+        use BinOpType::*;
+        const WIDE: [i64; 10] = [5, 0x1_0000_0005, 0xffff_ffff, -1, 0x8000_0000, 0x7fff_ffff, 0x1_0000_0000, -0x8000_0000, 0x1234_5678_9abc, 0];
+        let a = self.dst();
+        let cond = self.cond();
+        self.blocks += 6;
+        let pickc = |g: &mut Gen| if g.rng.chance(1, 2) { *g.rng.pick(&WIDE[..]) } else { konst(g.rng) };
+        let (c1, c2) = (pickc(self), pickc(self));
+        out.push(Stmt::If { cond, then: vec![Stmt::Defs(vec![assign(&a, c(c1, 8))])], els: vec![Stmt::Defs(vec![assign(&a, c(c2, 8))])] });
+        if self.rng.chance(1, 3) {
+            let e = match self.rng.below(4) {
+                0 => plus(v(&a), small(self.rng)),
+                1 => bin(IntMult, v(&a), c(*self.rng.pick(&[2i64, 3, 4, -1]), 8)),
+                2 => bin(IntAnd, v(&a), c(*self.rng.pick(&[0xffi64, 0xffff_ffff, -8, 0xfff]), 8)),
+                _ => bin(IntSub, c(small(self.rng), 8), v(&a)),
+            };
+            out.push(Stmt::Defs(vec![assign(&a, e)]));
+        }
+        // the test: the usual comparison shapes on `a`, or a test of its low bytes
+        let saved = self.reserved.clone();
+        self.reserved.push(a.clone());
+        self.prefer = Some(a.clone());
+        let cond2 = if self.rng.chance(1, 2) {
+            let size = *self.rng.pick(&[4u64, 4, 2, 1]);
+            let low = subp(0, size, v(&a));
+            let k = if self.rng.chance(2, 3) { if self.rng.chance(1, 2) { c1 } else { c2 } } else { konst(self.rng) };
+            let op = self.cmp_op();
+            let e = match self.rng.below(3) {
+                0 => bin(op, low, c(k, size)),
+                1 => bin(op, cast(CastOpType::IntSExt, 8, low), c(bv_i64(k, size).try_to_i64().unwrap_or(k), 8)),
+                _ => bin(op, cast(CastOpType::IntZExt, 8, low), c(bv_i64(k, size).try_to_u64().unwrap_or(0) as i64, 8)),
+            };
+            self.cond_from(e)
+        } else {
+            self.cond()
+        };
+        self.prefer = None;
+        let then = self.seq(depth + 1);
+        let els = if self.rng.chance(1, 2) { self.seq(depth + 1) } else { vec![] };
+        self.reserved = saved;
+        out.push(Stmt::If { cond: cond2, then, els });
     }
     fn if_stmt(&mut self, depth: usize) -> Stmt {
         let cond = self.cond();
@@ -420,7 +499,7 @@ impl<'a> Gen<'a> {
         let (init, step, cond_expr): (Vec<Def>, Vec<Def>, Expression) = match kind {
             0..=3 => {
                 // up-counting with a constant or register bound
-                let c0 = *self.rng.pick(&[0i64, 0, 1, -1, 2, -8, 100]);
+                let c0 = *self.rng.pick(&[0i64, 0, 1, -1, 2, -8, 100, -5, -16]);
                 let s = *self.rng.pick(&[1i64, 1, 1, 2, 4, 8, 3]);
                 let n = 1 + self.rng.below(12) as i64;
                 let bound_reg = self.src();
@@ -598,7 +677,7 @@ fn instr_tid(b: usize, n: usize) -> Tid {
 /// One single-function program of the input class.
 pub fn gen_function(rng: &mut Rng, k: &PiKnobs) -> Term<Program> {
     let frame = *rng.pick(&[0i64, 0, 8, 16, 32, 64]);
-    let mut g = Gen { rng, k: k.clone(), reserved: Vec::new(), blocks: 1, frame: -frame, tmp_counter: 0 };
+    let mut g = Gen { rng, k: k.clone(), reserved: Vec::new(), blocks: 1, frame: -frame, tmp_counter: 0, prefer: None };
     let mut stmts = Vec::new();
     // prologue: optional push of a callee-saved register, frame allocation
     let mut pro = Vec::new();
@@ -671,6 +750,81 @@ pub fn gen_function(rng: &mut Rng, k: &PiKnobs) -> Term<Program> {
 }
 
 // ------------------------------------------------------------------------------------------------
+// directed programs: minimal members of the input class for shapes that matter (regressions)
+// ------------------------------------------------------------------------------------------------
+fn build(blocks: Vec<(Vec<Def>, Term_)>) -> Term<Program> {
+    let mut out = Vec::new();
+    for (b, (defs, term)) in blocks.into_iter().enumerate() {
+        let defs: Vec<Term<Def>> = defs.into_iter().enumerate().map(|(n, d)| Term { tid: instr_tid(b, n), term: d }).collect();
+        let nd = defs.len();
+        let jmps = match term {
+            Term_::Goto(t) => vec![Term { tid: instr_tid(b, nd), term: Jmp::Branch(blk_tid(t)) }],
+            Term_::CGoto(e, t, f) => vec![
+                Term { tid: instr_tid(b, nd), term: Jmp::CBranch { target: blk_tid(t), condition: e } },
+                Term { tid: instr_tid(b, nd + 1), term: Jmp::Branch(blk_tid(f)) },
+            ],
+            Term_::Ret | Term_::Open => vec![Term { tid: instr_tid(b, nd), term: Jmp::Return(v("RAX")) }],
+        };
+        out.push(Term { tid: blk_tid(b), term: Blk { defs, jmps, indirect_jmp_targets: Vec::new() } });
+    }
+    let st = sub_tid();
+    let sub = Term { tid: st.clone(), term: Sub { name: "f".to_string(), blocks: out, calling_convention: Some("__stdcall".to_string()) } };
+    Term {
+        tid: tid("prog_00001000", "00001000"),
+        term: Program {
+            subs: BTreeMap::from([(st.clone(), sub)]),
+            extern_symbols: BTreeMap::new(),
+            entry_points: [st].into_iter().collect(),
+            address_base_offset: 0,
+        },
+    }
+}
+
+/// Hand-written programs (name, program), each a few blocks.
+pub fn directed_programs() -> Vec<(&'static str, Term<Program>)> {
+    use BinOpType::*;
+    let ret = || (vec![], Term_::Ret);
+    vec![
+        // a parameter register compared with itself plus a constant (same abstract identifier, no object)
+        ("same-id-ne", build(vec![(vec![], Term_::CGoto(bin(IntNotEqual, v("RDX"), plus(v("RDX"), 8)), 1, 2)), ret(), ret()])),
+        ("same-id-eq", build(vec![
+            (vec![assign("RCX", plus(v("RDI"), 1)), assign("RAX", plus(v("RCX"), -1))], Term_::CGoto(bin(IntEqual, v("RAX"), v("RDI")), 1, 2)),
+            ret(), ret()])),
+        // counter with stride 3 and a negative start, unsigned exit test
+        ("strided-negative-counter", build(vec![
+            (vec![assign("RSI", c(-8, 8))], Term_::Goto(1)),
+            (vec![assign("RSI", plus(v("RSI"), 3))], Term_::CGoto(bin(IntLess, c(13, 8), v("RSI")), 1, 2)),
+            ret()])),
+        // a value that does not fit into 4 bytes, tested through its low 4 bytes
+        ("subpiece-test-of-wide-value", build(vec![
+            (vec![], Term_::CGoto(bin(IntEqual, v("RDI"), c(0, 8)), 1, 2)),
+            (vec![assign("RAX", c(5, 8))], Term_::Goto(3)),
+            (vec![assign("RAX", c(0x1_0000_0005, 8))], Term_::Goto(3)),
+            (vec![], Term_::CGoto(bin(IntEqual, subp(0, 4, v("RAX")), c(5, 4)), 4, 5)),
+            ret(), ret()])),
+        ("zext-subpiece-test-of-wide-constant", build(vec![
+            (vec![assign("RBX", c(0xffff_ffff, 8))], Term_::Goto(1)),
+            (vec![], Term_::CGoto(bin(IntEqual, cast(CastOpType::IntSExt, 8, subp(0, 4, v("RBX"))), c(-1, 8)), 2, 3)),
+            ret(), ret()])),
+        // pointer that is NULL or a valid absolute address, dereferenced after the join
+        ("maybe-null", build(vec![
+            (vec![], Term_::CGoto(bin(IntSLess, v("RSI"), c(0, 8)), 1, 2)),
+            (vec![assign("RBX", c(0, 8))], Term_::Goto(3)),
+            (vec![assign("RBX", c(1024, 8))], Term_::Goto(3)),
+            (vec![Def::Load { var: reg("RAX"), address: v("RBX") }], Term_::Goto(4)),
+            ret()])),
+        // spill, branch, reload with a smaller and a misaligned access
+        ("spill-reload", build(vec![
+            (vec![assign(SP, plus(v(SP), -32)), Def::Store { address: plus(v(SP), 8), value: v("RDI") },
+                  Def::Store { address: plus(v(SP), 16), value: c(7, 8) }], Term_::CGoto(bin(IntLess, v("RSI"), c(10, 8)), 1, 2)),
+            (vec![Def::Store { address: plus(v(SP), 12), value: subp(0, 4, v("RSI")) }], Term_::Goto(2)),
+            (vec![Def::Load { var: reg("RAX"), address: plus(v(SP), 8) }, Def::Load { var: reg("RBX"), address: plus(v(SP), 16) },
+                  Def::Load { var: tmp("$U1", 4), address: plus(v(SP), 16) }, assign("RCX", cast(CastOpType::IntZExt, 8, Expression::Var(tmp("$U1", 4)))),
+                  assign(SP, plus(v(SP), 32))], Term_::Ret)])),
+    ]
+}
+
+// ------------------------------------------------------------------------------------------------
 // initial register files
 // ------------------------------------------------------------------------------------------------
 fn collect_consts(e: &Expression, out: &mut Vec<i64>) {
@@ -714,7 +868,7 @@ pub fn constants_of(sub: &Term<Sub>) -> Vec<i64> {
 }
 
 /// `n` initial register files (register name -> value) for a function: random, boundary and values at
-/// the function's constants +-1; several registers share a value now and then; RSP is a large aligned
+/// the function's constants +-1 and at the edges of the NULL window; several registers share a value now and then; RSP is a large aligned
 /// address far away from every small absolute address; flags hold 0/1.
 pub fn gen_inits(rng: &mut Rng, consts: &[i64], n: usize, register_set: &[Variable]) -> Vec<Vec<(String, u64, u64)>> {
     let mut out = Vec::new();
@@ -730,6 +884,12 @@ pub fn gen_inits(rng: &mut Rng, consts: &[i64], n: usize, register_set: &[Variab
                 (_, 1 | 2 | 3) if !consts.is_empty() => (*rng.pick(consts)).wrapping_add(rng.range(-1, 1)) as u64,
                 (1, _) => rng.below(20),                                     // small (loops terminate)
                 (_, 4) => *rng.pick(&EDGE[..]) as u64,
+                // the edges of the NULL window (+-1024), also below arbitrary high bits (addresses are
+                // often formed by masking a register)
+                (_, 8) => {
+                    let e = *rng.pick(&[1024i64, 1023, 1025, 1032, 1016, -1024, -1023, -1025, 0]) as u64;
+                    if rng.chance(1, 2) { e } else { (rng.next() & !0xffffu64) | (e & 0xffff) }
+                }
                 (_, 5 | 6) => rng.below(40),
                 (_, 7) => (rng.below(40) as i64).wrapping_neg() as u64,
                 _ => rng.next(),
